@@ -26,15 +26,16 @@ CLAIM = dict(
     "one level of coarsening preserves it for even extents and provably does not for odd ones (witness n = 3, known finding); "
     "refine-then-coarsen is the identity; reduction(sum) is the array sum along the axis with unchanged total, reduction(average) = sum / count, "
     "integral relations of both modes; extrusion integral = integral x height; superposition on a shared grid = pointwise sum and "
-    "voxel-aligned superposition conserves the total; multi-level coarsening AS CODED (original axis length at every level): extents "
-    "divisible by 2^levels are conservative and raise nothing (all n, levels), odd first-level extents are not (all n), deeper failure modes "
-    "(silent broadcast at current extent 3, ValueError at 1 and 5) by witnesses - the full 'only if' is partial, checked exhaustively for "
-    "n <= 64, levels <= 3; Resize keeps dimensions/origin, plain area resizing preserves the integral and the conservative variant multiplies "
-    "it by the ratio of voxel counts; equalize_voxel_size keeps the extent, gives exactly k voxels for an extent of k voxel sizes and the nearest "
-    "integer in general. OBSERVED only (differential check + oracle): that OpenCV's INTER_AREA and "
+    "voxel-aligned superposition conserves the total, with the canvas COMPUTED in the model (superpose_canvas_sum); multi-level coarsening as "
+    "coded NOW (current extent on every level, fix 01b9c8c) is the iterated single-level coarsening for every extent and level count "
+    "(coarsen_levels_is_iterated) and conservative when 2^levels divides the extent (coarsen_levels_pow2_conservative); the coarsen_coded_* theorems "
+    "are HISTORICAL (pre-fix code, untied). Plain area resizing preserves the integral (area_resize_integral: tied by non-conservative Resize cases) "
+    "and the conservative variant multiplies it by the ratio of voxel counts; equalize_voxel_size gives exactly k voxels for an extent of k voxel "
+    "sizes and the nearest integer in general. OBSERVED only (differential check + oracle): that OpenCV's INTER_AREA and "
     "warpPerspective kernels realise these models (Resize within 1e-6 relative, float32 area weights; superpose exactly), that numpy "
     "repeat/sum/slicing realise refinement/coarsening/reduction (exact), and all metadata (dimensions, origin, extents).",
-    note="Level 'other': the conserved quantity of Resize is the documented array sum, not sum x voxel volume; the OpenCV kernels are a "
+    note="DEFINITIONAL (rfl on the model, the code side is observed by the oracle): reduce_sum_eq part 1, reduce_avg_eq, resize_keeps_extent, "
+    "equalize_keeps_extent. Level 'other': the conserved quantity of Resize is the documented array sum, not sum x voxel volume; the OpenCV kernels are a "
     "contract checked numerically, not proved. Known findings: coarsening with an odd (intermediate) extent is not conservative; "
     "reduce_axis along z / extrude_along_axis exchange the physical extents of the retained x and y axes (3-D and 2-D axis conventions conflict).",
     technique="Lean 4 proofs of the resampling algebra (telescoping overlaps, box sums, Fubini for boxes) + differential correspondence + property oracle",
@@ -203,6 +204,13 @@ def run(ctx):
             if as_image and not (np.allclose(res.dimensions, img.dimensions, rtol=0, atol=0) and np.allclose(res.origin, img.origin, rtol=0, atol=0)
                                  and np.allclose(res.voxel_size, [img.dimensions[k] / tgt[k] for k in range(2)], rtol=1e-15, atol=0)):
                 ctx.fail(f"C11:Resize(conservative,{kind}):dimensions-changed", f"{img.dimensions} -> {res.dimensions}", {"op": "resize", "shape": shape, "target": tgt})
+            if as_image and not np.issubdtype(dtype, np.integer):
+                # plain area resizing (conservative = False) preserves the physical INTEGRAL (theorem area_resize_integral)
+                plain = call(lambda: d.Resize(shape=tgt, interpolation="inter_area")(img))
+                ia, ib = integ(d, img), (plain if isinstance(plain, Raised) else integ(d, plain))
+                if isinstance(ib, Raised) or isinstance(ia, Raised) or not np.allclose(ib, ia, rtol=RTOL, atol=RTOL * float(np.max(np.abs(arr.astype(float))) + 1) * 4):
+                    ctx.fail(f"C11:Resize(inter_area,{kind}):integral-not-preserved", f"integral {ia} -> {ib} for {shape}->{tgt}",
+                             {"op": "resize", "shape": shape, "target": tgt, "values": arr.ravel().tolist(), "trailing": trailing, "dtype": dtype.__name__, "conservative": False})
             if not trailing and len(lines) < ctx.pick(400, 5000):
                 corr("resize", f"resize {shape[0]} {shape[1]} {tgt[0]} {tgt[1]} {flist(arr.ravel().tolist())}", out, False)
     ctx.cov["resize"] = {"cases": n_resize, "max_relative_sum_error": worst, "tolerance": RTOL}
@@ -240,6 +248,8 @@ def run(ctx):
                         ctx.fail("C11:uniform_refinement(levels<-1):original extent used at deeper levels(odd intermediate extent)" if not first_level_odd
                                  else "C11:uniform_refinement(levels<0):raises-or-wrong-shape(odd extent)",
                                  f"shape {shape}, levels {lv}: " + (repr(out) if isinstance(out, Raised) else f"shape {out.img.shape}, expected {tuple(cur)}"), replay)
+                    elif not ok and isinstance(integ(d, out), Raised):
+                        ctx.fail("C11:uniform_refinement(levels<0):integral-of-result-raises(odd extent)", repr(integ(d, out)), replay)
                     elif not ok:
                         ctx.fail("C11:uniform_refinement(levels<0):odd extent along coarsened axis",
                                  f"shape {shape}, levels {lv}: " + (repr(out) if isinstance(out, Raised) else f"integral {i0.tolist()} -> {np.asarray(integ(d, out)).tolist()}"), replay)
@@ -316,6 +326,9 @@ def run(ctx):
                     if not (np.allclose(lo1, lo0[kept], rtol=0, atol=1e-12) and np.allclose(hi1, hi0[kept], rtol=0, atol=1e-12)):
                         ext = hi0[kept] - lo0[kept]
                         cls = "equal-extents" if np.allclose(ext, ext[0]) else "unequal-extents"
+                        if cls == "unequal-extents" and not (dim == 3 and a == "z" and np.allclose(lo1, lo0[kept], rtol=0, atol=1e-12)
+                                                             and np.allclose(hi1 - lo1, ext[::-1], rtol=0, atol=1e-12)):
+                            cls = "unequal-extents,not-the-known-exchange-of-x-and-y"  # anything but the known convention conflict is a violation
                         ctx.fail(f"C11:reduce_axis(dim={dim},axis={a}):retained-axes-extent({cls})",
                                  f"3-D box {lo0.tolist()}..{hi0.tolist()} reduced along {a}: box {lo1.tolist()}..{hi1.tolist()}, expected {lo0[kept].tolist()}..{hi0[kept].tolist()}", replay)
                     if not trailing and mode == "sum":
@@ -346,6 +359,10 @@ def run(ctx):
                 lo1, hi1 = box(ex)
                 if not (np.allclose(lo1[:2], lo0, rtol=0, atol=1e-12) and np.allclose(hi1[:2], hi0, rtol=0, atol=1e-12)):
                     cls = "equal-extents" if np.isclose(hi0[0] - lo0[0], hi0[1] - lo0[1]) else "unequal-extents"
+                    ext2 = hi0 - lo0
+                    if cls == "unequal-extents" and not (np.allclose(lo1[0], lo0[0], atol=1e-12) and np.allclose(hi1[1], hi0[1], atol=1e-12)
+                                                         and np.allclose((hi1 - lo1)[:2], ext2[::-1], rtol=0, atol=1e-12)):
+                        cls = "unequal-extents,not-the-known-exchange-of-x-and-y"
                     ctx.fail(f"C11:extrude_along_axis:retained-axes-extent({cls})",
                              f"2-D box {lo0.tolist()}..{hi0.tolist()} extruded: x,y box {lo1[:2].tolist()}..{hi1[:2].tolist()}", replay)
                 if not trailing:
@@ -404,8 +421,8 @@ def run(ctx):
     ctx.cov["superpose_cases"] = n_sup
 
     # ------------------------------------------------------------------ multi-level coarsening exactly as coded (1-D)
-    # characterisation: conservative for every image iff 2^levels divides the extent; otherwise halved last voxel (level 1),
-    # silently wrong broadcast (current extent 3) or ValueError (current extent 1 or odd >= 5)
+    # current code (fix 01b9c8c): every level uses its current extent = iterated single-level coarsening; conservative for every image
+    # iff 2^levels divides the extent, otherwise the unpaired last voxel of an odd level is halved (known finding); it never raises
     n_coded = 0
     for n in (range(1, 65) if ctx.big else list(range(1, 21)) + [24, 32, 40, 48, 64]):
         arr = dy_array(rng, (n,))
@@ -502,7 +519,10 @@ def replay(data):
         arr = np.array(r["values"], dtype=r.get("dtype", "float64")).reshape(tuple(r["shape"]) + tr)
         out = call(lambda: d.Resize(shape=tuple(r["target"]), interpolation="inter_area", **{"resize conservative": True})(arr.copy()))
         print(f"sum before {arr.astype(float).sum(axis=(0, 1)).tolist()} after {out if isinstance(out, Raised) else out.astype(float).sum(axis=(0, 1)).tolist()} (required: equal within 1e-6 relative)")
-        return 0
+        if isinstance(out, Raised):
+            return 1
+        a, b = arr.astype(float).sum(axis=(0, 1)), out.astype(float).sum(axis=(0, 1))
+        return 0 if np.allclose(a, b, rtol=RTOL, atol=RTOL * max(1.0, float(np.abs(arr.astype(float)).sum()))) else 1
     if op == "refine":
         shape = tuple(r["shape"])
         arr = np.array(r["values"], dtype=float).reshape(shape + tr)
@@ -510,7 +530,7 @@ def replay(data):
         out = call(d.uniform_refinement, img, r["level"])
         i0 = integ(d, img)
         print(f"shape {shape} levels {r['level']}: integral before {np.asarray(i0).tolist()} after {out if isinstance(out, Raised) else np.asarray(integ(d, out)).tolist()} (required: equal)")
-        return 0
+        return 1 if isinstance(out, Raised) or isinstance(integ(d, out), Raised) or not np.array_equal(integ(d, out), i0) else 0
     if op in ("reduce", "extrude"):
         shape = tuple(r["shape"])
         arr = np.array(r["values"], dtype=float).reshape(shape + tr)
@@ -523,7 +543,14 @@ def replay(data):
         else:
             lo1, hi1 = box(out)
             print(f"output box {lo1.tolist()}..{hi1.tolist()} dimensions {out.dimensions} integral in {np.asarray(integ(d, img)).tolist()} out {np.asarray(integ(d, out)).tolist()}")
-        return 0
+            if op == "extrude":
+                return 0 if np.allclose(lo1[:2], lo0, atol=1e-12) and np.allclose(hi1[:2], hi0, atol=1e-12) else 1
+            cart = "xyz".find(r["axis"]) if isinstance(r["axis"], str) else None
+            if cart is not None:
+                kept = [c for c in range(len(shape)) if c != cart]
+                return 0 if np.allclose(lo1, lo0[kept], atol=1e-12) and np.allclose(hi1, hi0[kept], atol=1e-12) else 1
+            return 0
+        return 1
     import json
 
     print(json.dumps(r)[:2000])
